@@ -4,7 +4,12 @@ Seven mechanisms, each a necessary condition of the statement:
 D1 single source of parameter resolution (who-may-resolve, first-match chain, configuration kept as given),
 D2 run-time type gate (and no data substitution before it), D3 probe pass-through / keyed write,
 D4 declared-key enforcement, D5 strictly sequential loop that aborts on first failure,
-D6 slicers map element-wise in order, D7 shorthand table agreement, D8 IO adapters.
+D6 slicers map element-wise in order, D7 shorthand table agreement, D8 IO adapters,
+D9 the payload's own context/data reach parameter resolution and the processor,
+D10 accepted context writes/deletes are carried out by every forwarding layer (validation only rejects),
+D11 the generated rename:/delete:/template: processors act whenever the consumed key was resolved.
+The D1 first-match chain is decided from the truth table of the guards (sa/props/_chains.py), not from
+the textual order of the `if` statements.
 """
 from __future__ import annotations
 
@@ -12,7 +17,7 @@ import ast
 import re
 from typing import Dict, List, Optional, Set, Tuple
 
-from ..cfg import CFG, edges_guaranteeing, returns_only_through
+from ..cfg import CFG, edges_guaranteeing, reaching_defs, returns_only_through
 from ..engine import (
     AnalysisError,
     FuncNode,
@@ -30,7 +35,7 @@ from ..engine import (
     walk_no_nested,
 )
 from ..report import Report
-from ._chains import PARAMRES, exit_values, extract_chain
+from ._chains import PARAMRES, _resolved, _single_defs, exit_values, extract_chain
 from ..pat import find, find1, match, name_of
 
 NODES = "semantiva/pipeline/nodes/nodes.py"
@@ -413,3 +418,199 @@ def run(repo: Repo, R: Report) -> None:
             R.check(ok, r_io, IOF, qualname_of(lf), "source adapter returns the loaded value, not its input", "a source adapter passes its input through", lf.lineno)
     if n_seen < 4:
         raise AnalysisError(f"IO adapter templates: {n_seen} _process_logic bodies recognised (4 confirmed by reading)")
+
+    _rule_run_inputs(repo, R, nmod)
+    _rule_forwarding(repo, R)
+    _rule_shorthand_processors(repo, R)
+
+
+# ---------------------------------------------------------------------- D9
+def _no_raise(_part: ast.AST) -> Set[str]:
+    return set()
+
+
+def _assigned_component(st: ast.AST, name: str) -> Optional[ast.AST]:
+    """The expression bound to *name* by assignment statement *st* (`a = e`, `a, b = e1, e2`, `a: T = e`)."""
+    if isinstance(st, ast.AnnAssign):
+        return st.value if isinstance(st.target, ast.Name) and st.target.id == name else None
+    if not isinstance(st, ast.Assign):
+        return None
+    for t in st.targets:
+        if isinstance(t, ast.Name) and t.id == name:
+            return st.value
+        if isinstance(t, (ast.Tuple, ast.List)) and isinstance(st.value, (ast.Tuple, ast.List)) and len(t.elts) == len(st.value.elts):
+            for te, ve in zip(t.elts, st.value.elts):
+                if isinstance(te, ast.Name) and te.id == name:
+                    return ve
+    return None
+
+
+def _is_run_input(g: CFG, e: ast.AST, use: int, payload_p: str, attr: str, depth: int = 0) -> bool:
+    """Does expression *e*, evaluated at CFG node *use*, necessarily denote `<payload>.<attr>` of the
+    payload the method was called with?  Locals are followed through their reaching definitions;
+    `self.<x>` is accepted when every store to it in the method stores the run input and one of
+    them dominates the use."""
+    if depth > 8:
+        return False
+    dn = dotted_name(e)
+    if dn == f"{payload_p}.{attr}":
+        return not reaching_defs(g, payload_p, use)  # the parameter itself, not a rebound local
+    if isinstance(e, ast.Name):
+        defs = reaching_defs(g, e.id, use)
+        if not defs:
+            return False
+        for d in defs:
+            v = _assigned_component(d.ast, e.id) if d.kind == "stmt" else None
+            if v is None or not _is_run_input(g, v, d.id, payload_p, attr, depth + 1):
+                return False
+        return True
+    if dn and dn.startswith("self.") and dn.count(".") == 1:
+        stores = [n for n in g.nodes if n.kind == "stmt" and isinstance(n.ast, ast.Assign) and any(dotted_name(t) == dn for t in n.ast.targets)]
+        if not stores or not all(_is_run_input(g, s.ast.value, s.id, payload_p, attr, depth + 1) for s in stores):
+            return False
+        return any(g.dominated_by_node(use, s.id) for s in stores if s.id != use)
+    return False
+
+
+def _rule_run_inputs(repo: Repo, R: Report, nmod) -> None:
+    r = R.rule("C01-D9-run-inputs-reach-the-processor", "in every node body the context handed to parameter resolution (and to operate_context) is the context of the payload the node was given, and the data handed to the processor is that payload's data", 10)
+    for qn, f in [(q, n) for q, n in nmod.defs.items() if isinstance(n, FuncNode) and n.name == "_process_single_item_with_context"]:
+        if len(f.args.args) < 2:
+            continue
+        payload_p = f.args.args[1].arg
+        g = CFG(f, may_raise=_no_raise)
+
+        def use_of(c: ast.Call) -> Optional[int]:
+            ids = g.nodes_for(stmt_of(c))
+            return ids[0] if ids else None
+
+        for c in calls_in(f):
+            if not isinstance(c.func, ast.Attribute):
+                continue
+            recv, meth = dotted_name(c.func.value), c.func.attr
+            wanted: List[Tuple[Optional[ast.AST], str, str]] = []
+            if recv == "self" and meth == "_get_processor_parameters":
+                wanted.append((c.args[0] if c.args else kwarg(c, "context"), "context", "parameters are resolved against"))
+            elif recv == "self" and meth == "_fetch_parameter_value":
+                wanted.append((c.args[1] if len(c.args) > 1 else kwarg(c, "context"), "context", "parameters are resolved against"))
+            elif recv == "self.processor" and meth == "process":
+                wanted.append((c.args[0] if c.args else kwarg(c, "data"), "data", "the processor is run on"))
+            elif recv == "self.processor" and meth == "operate_context":
+                wanted.append((kwarg(c, "context") or (c.args[0] if c.args else None), "context", "the context processor operates on"))
+            for e, attr, what in wanted:
+                use = use_of(c)
+                ok = e is not None and use is not None and _is_run_input(g, e, use, payload_p, attr)
+                R.check(ok, r, NODES, qn, norm(c)[:90], f"{what} `{ast.unparse(e) if e is not None else '?'}`, which is not (provably) `{payload_p}.{attr}` of the payload this node received: values placed in the pipeline context (initial context, keys written by earlier nodes) are invisible to this node / it works on other data", c.lineno)
+
+
+# ---------------------------------------------------------------------- D10
+def _rule_forwarding(repo: Repo, R: Report) -> None:
+    r = R.rule("C01-D10-accepted-writes-and-deletes-are-carried-out", "between a processor's _notify_context_update/_notify_context_deletion and the context mapping no layer skips the operation: every normally-returning path of each forwarding method performs the forwarding call with the caller's key (validation may only reject by raising), so a declared write happens and deleting an absent key fails at this node", 8)
+
+    def forwarded(rel: str, qn: str, is_fwd, what: str, bad: str) -> None:
+        f = repo.func(rel, qn)
+        g = CFG(f, may_raise=_no_raise)
+        fwd = {n.id for n in g.nodes if n.ast is not None and n.kind == "stmt" and is_fwd(f, n.ast)}
+        miss = g.must_pass([g.entry], [g.ret_exit], lambda n: n.id in fwd)
+        R.check(bool(fwd) and not miss, r, rel, qn, what, bad, f.lineno, miss[0][1] if miss else None)
+        # a handler around the forwarding call that does not re-raise turns the prescribed failure into a skip
+        for t in [n for n in walk_no_nested(f) if isinstance(n, ast.Try)]:
+            if any(is_fwd(f, st) for b in t.body for st in ast.walk(b) if isinstance(st, ast.stmt)):
+                for h in t.handlers:
+                    if not (h.body and isinstance(h.body[-1], ast.Raise)):
+                        R.violation(r, rel, qn, norm(h)[:80], f"the failure of the forwarded operation is caught and not re-raised ({what}): the node completes although the operation failed, later nodes run", h.lineno)
+
+    def key_param(f) -> str:
+        names = [a.arg for a in f.args.args]
+        return names[1] if names and names[0] in ("self", "cls") else names[1] if len(names) > 1 and names[0] == "context" else (names[0] if names else "key")
+
+    # validating observer -> base observer
+    for meth in ("update", "delete"):
+        def is_super(f, st, meth=meth) -> bool:
+            return any(isinstance(c.func, ast.Attribute) and c.func.attr == meth and isinstance(c.func.value, ast.Call) and call_attr(c.func.value) == "super" and c.args and dotted_name(c.args[0]) == f.args.args[1].arg for c in calls_in(st))
+        forwarded(OBS, f"_ValidatingContextObserver.{meth}", is_super, f"every accepted key reaches super().{meth}(key, ...)",
+                  f"a declared key is accepted but the {meth} is skipped on some path (extra condition after the membership test): " + ("deleting a key that is not in the context no longer raises KeyError at this node, the node completes and later nodes run" if meth == "delete" else "a declared write is silently dropped"))
+    # base observer -> static helpers on the bound context
+    for meth, helper in (("update", "update_context"), ("delete", "delete_context")):
+        def is_helper(f, st, helper=helper) -> bool:
+            return any(call_attr(c) == helper and len(c.args) >= 2 and dotted_name(c.args[0]) == "self.observer_context" and dotted_name(c.args[1]) == f.args.args[1].arg for c in calls_in(st))
+        forwarded(OBS, f"_ContextObserver.{meth}", is_helper, f"{helper}(self.observer_context, key, ...) on every path", f"the observer does not apply the {meth} to its bound context on some path")
+    # static helpers -> the mapping
+    for helper, muts in (("update_context", ("set_value", "set_item_value")), ("delete_context", ("delete_value", "delete_item_value"))):
+        def is_mut(f, st, muts=muts) -> bool:
+            ctx_p, key_p = f.args.args[0].arg, f.args.args[1].arg
+            for c in calls_in(st):
+                if isinstance(c.func, ast.Attribute) and c.func.attr in muts and dotted_name(c.func.value) == ctx_p and any(dotted_name(a) == key_p for a in c.args):
+                    return True
+            tg: List[ast.AST] = []
+            if isinstance(st, ast.Assign) and muts[0] == "set_value":
+                tg = list(st.targets)
+            if isinstance(st, ast.Delete) and muts[0] == "delete_value":
+                tg = list(st.targets)
+            return any(isinstance(t, ast.Subscript) and dotted_name(t.slice) == key_p and ctx_p in {x.id for x in ast.walk(t.value) if isinstance(x, ast.Name)} for t in tg)
+        forwarded(OBS, f"_ContextObserver.{helper}", is_mut, f"every path mutates `context` under `key` ({'/'.join(muts)} or item store)", f"{helper} returns normally on some path without touching the context")
+    # context processor -> its observer
+    for meth, obs_meth in (("_notify_context_update", "update"), ("_notify_context_deletion", "delete")):
+        def is_obs(f, st, obs_meth=obs_meth) -> bool:
+            return any(isinstance(c.func, ast.Attribute) and c.func.attr == obs_meth and dotted_name(c.func.value) == "self._context_observer" and c.args and dotted_name(c.args[0]) == f.args.args[1].arg for c in calls_in(st))
+        forwarded(CPROC, f"ContextProcessor.{meth}", is_obs, f"self._context_observer.{obs_meth}(key, ...) on every path", f"a context processor's {obs_meth} request is dropped on some path instead of being forwarded to the (validating) observer")
+
+
+# ---------------------------------------------------------------------- D11
+CFACT = "semantiva/context_processors/factory.py"
+
+
+def _rule_shorthand_processors(repo: Repo, R: Report) -> None:
+    r = R.rule("C01-D11-shorthand-processors-act-on-presence", "the processors generated for rename:/delete:/template: perform their declared write/delete whenever the consumed key was resolved (the only condition allowed in front of it is the presence test `key in kwargs`; a test on the resolved *value*, `kwargs.get(key) is not None` included, skips a key that is present and holds None / 0 / ''), on the declared keys, with the resolved value", 4)
+
+    def logic_of(factory: str) -> Tuple[ast.AST, ast.AST]:
+        fac = repo.func(CFACT, factory)
+        fns = [n for n in ast.walk(fac) if isinstance(n, FuncNode) and n is not fac and any(call_attr(c) in ("_notify_context_update", "_notify_context_deletion") for c in calls_in(n))]
+        if len(fns) != 1 or fns[0].args.kwarg is None:
+            raise AnalysisError(f"{factory}: generated _process_logic(self, **kwargs) not found")
+        return fac, fns[0]
+
+    def analyse(factory: str, consumed_idx: Optional[int], expect: List[Tuple[str, int]]) -> None:
+        fac, f = logic_of(factory)
+        fparams = [a.arg for a in fac.args.args]
+        kw = f.args.kwarg.arg
+        defs = _single_defs(f)
+        consumed = fparams[consumed_idx] if consumed_idx is not None else None
+
+        def reads_consumed(e: ast.AST) -> bool:
+            e = _resolved(e, defs)
+            if isinstance(e, ast.Call) and isinstance(e.func, ast.Attribute) and e.func.attr == "get" and dotted_name(e.func.value) == kw and len(e.args) == 1 and not e.keywords:
+                return dotted_name(e.args[0]) == consumed
+            return isinstance(e, ast.Subscript) and dotted_name(e.value) == kw and dotted_name(e.slice) == consumed
+
+        def absent(e: ast.AST) -> Optional[bool]:
+            """True: *e* says the consumed key was not resolved; False: it says it was."""
+            if isinstance(e, ast.Name) and e.id in defs:
+                return absent(defs[e.id])
+            if isinstance(e, ast.Compare) and len(e.ops) == 1:
+                op, a, b = e.ops[0], e.left, e.comparators[0]
+                if isinstance(op, (ast.In, ast.NotIn)) and dotted_name(a) == consumed and dotted_name(b) == kw:
+                    return isinstance(op, ast.NotIn)
+            return None
+
+        g = CFG(f, may_raise=_no_raise)
+        blocked: Set[Tuple[int, str]] = set()
+        if consumed is not None:
+            for n in g.nodes:
+                if n.kind in ("if", "while") and n.part is not None:
+                    for lab in edges_guaranteeing(n.part, absent):
+                        blocked.add((n.id, lab))
+        for meth, key_idx in expect:
+            want_key = fparams[key_idx]
+            sites = {n.id for n in g.nodes if n.ast is not None and n.kind == "stmt" and any(call_attr(c) == meth and dotted_name(c.func) == f"{f.args.args[0].arg}.{meth}" and c.args and dotted_name(c.args[0]) == want_key for c in calls_in(n.ast))}
+            miss = g.must_pass([g.entry], [g.ret_exit], lambda n: n.id in sites, blocked_edges=blocked)
+            tests = sorted({ast.unparse(n.part)[:50] for n in g.nodes if n.kind in ("if", "while") and n.part is not None and not edges_guaranteeing(n.part, absent)})
+            R.check(bool(sites) and not miss, r, CFACT, f"{factory}._process_logic", f"self.{meth}({want_key}, ...) whenever the key was resolved",
+                    f"the generated processor can finish without `{meth}({want_key})` although the consumed key was resolved" + (f" (guarded by `{tests[0]}`, which is not the presence test: a key that is present and holds None / 0 / False / '' / [] is neither renamed nor deleted, later nodes see the wrong context)" if tests else ""), f.lineno, miss[0][1] if miss else None)
+            if meth == "_notify_context_update" and consumed is not None:
+                vals = [c.args[1] for c in calls_in(f) if call_attr(c) == meth and len(c.args) == 2]
+                R.check(bool(vals) and all(reads_consumed(v) for v in vals), r, CFACT, f"{factory}._process_logic", f"the value written under {want_key} is the resolved value of {consumed}", "the destination key does not receive the value resolved for the source key", f.lineno)
+
+    analyse("_context_renamer_factory", 0, [("_notify_context_update", 1), ("_notify_context_deletion", 0)])
+    analyse("_context_deleter_factory", 0, [("_notify_context_deletion", 0)])
+    analyse("_context_template_factory", None, [("_notify_context_update", 1)])
